@@ -17,7 +17,11 @@ ORIGIN = {3: "written by an independent sub-agent that saw only the property tex
              "round 3 excluded the mechanisms of rounds 1 and 2 and asked for regressions hidden behind indirection or composition",
           4: "written by an independent sub-agent that saw only the property text and a scratch worktree of /repo (nothing from /verif); "
              "round 4 asked for regressions that need a specific input, value class or history of operations to show (data- and "
-             "history-dependent), excluding the mechanisms of rounds 1-3"}
+             "history-dependent), excluding the mechanisms of rounds 1-3",
+          5: "written by an independent sub-agent that saw only the property text and a scratch worktree of /repo (nothing from /verif); "
+             "round 5 asked for regressions that follow from language-level corner semantics of Python, re, pydantic v1 or sly (expression "
+             "syntax of the generated text, dunder protocols, Unicode classes and regex flags, number conversions, the typing cache, "
+             "object identity, copy/pickle), excluding the mechanisms of rounds 1-4"}
 
 
 def sh(cmd, cwd, env=None):
